@@ -362,6 +362,28 @@ def analyse_function(relpath, fn, loader, iterable_params):
                         findings.append(Finding("C44", fn.name, f"closure-shares-factory-object/{n.id}",
                                                 f"`{n.id}` ({root.bound.get(n.id)}, allocated once per call of {fn.name}(...)) is used by the closure "
                                                 f"{sc.qual()} that the operator runs once per application / subscription: all of them share it", n.lineno))
+    # a function of an operator module that MUTATES an object it is handed (an accumulator updating its `prev` in place, a mapper
+    # appending to its argument): the object may be a seed / default allocated once per application or per operator value and
+    # handed to every subscription (scan(accumulator, seed)) - state then survives from one subscription to the next although no
+    # variable is assigned.  Functions of these modules never do so on the unchanged tree.
+    for sc in all_scopes(root):
+        node = sc.node
+        if not isinstance(node, (ast.FunctionDef, ast.Lambda)):
+            continue
+        ps = {a.arg for a in node.args.posonlyargs + node.args.args + node.args.kwonlyargs} - {"self", "cls"}
+        nodes = list(own_nodes(node)) if not isinstance(node, ast.Lambda) else list(ast.walk(node.body))
+        for n in nodes:
+            tg = n.targets if isinstance(n, ast.Assign) else ([n.target] if isinstance(n, (ast.AugAssign, ast.AnnAssign)) else [])
+            for t in tg:
+                if isinstance(t, (ast.Attribute, ast.Subscript)) and isinstance(t.value, ast.Name) and t.value.id in ps:
+                    findings.append(Finding("C04", fn.name, f"mutates-its-argument/{t.value.id}",
+                                            f"{sc.qual()} assigns into its parameter `{t.value.id}` ({ast.unparse(n)[:60]}): an object shared by "
+                                            f"several subscriptions (a seed, a default) is changed by each of them", n.lineno))
+            if (isinstance(n, ast.Call) and isinstance(n.func, ast.Attribute) and n.func.attr in MUTATORS - {"on_next", "on_error", "on_completed"}
+                    and isinstance(n.func.value, ast.Name) and n.func.value.id in ps):
+                findings.append(Finding("C04", fn.name, f"mutates-its-argument/{n.func.value.id}",
+                                        f"{sc.qual()} mutates its parameter `{n.func.value.id}` by .{n.func.attr}(): an object shared by several "
+                                        f"subscriptions is changed by each of them", n.lineno))
     uniq = {}
     for f in findings:
         uniq.setdefault((f.prop, f.label), f)
